@@ -272,49 +272,65 @@ Section Mon.
     alist_get i (o_cl (observe univ addrs s)) = Some (is_claimed s i).
   Proof. intros Hm. unfold observe, o_cl. cbn [fst snd]. apply alist_get_map. exact Hm. Qed.
 
-  Lemma mon_step_model : forall univ addrs (s : state dg) c,
+  Lemma cl_sub_observe univ addrs (s : state dg) :
+    cl_sub (o_cl (observe univ addrs s)) (o_cl (observe univ addrs s)) = true.
+  Proof.
+    unfold cl_sub, observe, o_cl. cbn [fst snd]. apply forallb_forall. intros [j b] Hin.
+    apply in_map_iff in Hin. destruct Hin as (j' & E & Hin). injection E as Ej Eb. subst j b. cbn [fst snd].
+    rewrite (alist_get_map (is_claimed s) univ j' (proj2 (mem_n_in _ _) Hin)). apply eqb_reflx.
+  Qed.
+
+  Lemma obs_sub_observe univ addrs (s : state dg) :
+    obs_sub (observe univ addrs s) (observe univ addrs s) = true.
+  Proof.
+    unfold obs_sub. rewrite cl_sub_observe, bal_eqb_refl.
+    destruct (o_root (observe univ addrs s)); cbn [oroot_eqb]; [rewrite dg_eqb_refl|]; reflexivity.
+  Qed.
+
+  (* one step of the model: the monitor's expectation is exactly the model's next observation *)
+  Lemma mon_expect_model : forall univ addrs (s : state dg) c,
     self s = h_self h ->
-    wf_call h (squads h) (iquads h) (observe univ addrs s) c = true ->
-    mon_step h (squads h) (iquads h) (observe univ addrs s)
-      (c, snd (mstep h s c), observe univ addrs (fst (mstep h s c))) = true.
+    wf_call h (squads h) (iquads h) (observe univ addrs s) (root s) c = true ->
+    mon_expect h (squads h) (iquads h) (observe univ addrs s) c (snd (mstep h s c))
+    = Some (observe univ addrs (fst (mstep h s c))).
   Proof.
     intros univ addrs s c Hself Hwc. set (po := observe univ addrs s) in *.
     assert (Hkeys_cl : map fst (o_cl po) = univ) by (unfold po, observe, o_cl; cbn [fst snd]; apply map_fst_pair).
     assert (Hkeys_bal : map fst (o_bal po) = addrs) by (unfold po, observe, o_bal; cbn [fst snd]; apply map_fst_pair).
     assert (Hroot : o_root po = root s) by reflexivity.
     unfold mstep. destruct c as [p r v|p r v i|r|i|i a m p|i a m p|i a m p|n];
-      cbn [wf_call] in Hwc; cbn [step fst snd mon_step].
-    - (* Verify *) rewrite (verify_is_honest_s _ _ _ Hwc), out_eqb_refl, obs_eqb_refl. reflexivity.
+      cbn [wf_call] in Hwc; cbn [step fst snd mon_expect].
+    - (* Verify *) rewrite (verify_is_honest_s _ _ _ Hwc), out_eqb_refl. reflexivity.
     - (* VerifyIdx *) apply andb_prop in Hwc. destruct Hwc as [Hr Hi]. apply Z.leb_le in Hi.
-      rewrite (idx_outcome _ _ _ _ Hr Hi), out_eqb_refl, obs_eqb_refl. reflexivity.
-    - (* SetRoot *) cbn [out_eqb andb]. apply obs_eqb_eq. reflexivity.
-    - (* SetClaimed *) cbn [out_eqb andb]. apply obs_eqb_eq. apply observe_set_claimed.
+      rewrite (idx_outcome _ _ _ _ Hr Hi), out_eqb_refl. reflexivity.
+    - (* SetRoot *) cbn [out_eqb]. reflexivity.
+    - (* SetClaimed *) cbn [out_eqb]. f_equal. symmetry. apply observe_set_claimed.
     - (* ClaimS *)
       rewrite Hkeys_cl in Hwc. apply andb_prop in Hwc. destruct Hwc as [Hi Hcur].
       rewrite Hroot. unfold po at 1. rewrite (flag_observe _ _ _ _ Hi).
-      unfold unit_call, claim_sorted. rewrite Hroot in Hcur.
+      unfold unit_call, claim_sorted.
       destruct (root s) as [r|] eqn:Er; cbn [of_option bind].
       + destruct (is_claimed s i) eqn:Ec.
-        * cbn [fst snd unit_expect]. rewrite obs_eqb_refl. reflexivity.
+        * cbn [fst snd unit_expect out_eqb]. reflexivity.
         * rewrite (verify_is_honest_s _ _ _ Hcur).
-          destruct (honest_s (squads h) r (Lh h i a m) p); cbn [fst snd unit_expect out_eqb andb].
-          -- apply obs_eqb_eq. rewrite observe_set_claimed, Er. reflexivity.
-          -- apply obs_eqb_refl.
-      + cbn [fst snd unit_expect out_eqb andb]. apply obs_eqb_refl.
+          destruct (honest_s (squads h) r (Lh h i a m) p); cbn [fst snd unit_expect out_eqb].
+          -- f_equal. rewrite observe_set_claimed, Er. reflexivity.
+          -- reflexivity.
+      + cbn [fst snd unit_expect out_eqb]. reflexivity.
     - (* ClaimI *)
       rewrite Hkeys_cl in Hwc. apply andb_prop in Hwc. destruct Hwc as [Hi Hcur].
       rewrite Hroot. unfold po at 1. rewrite (flag_observe _ _ _ _ Hi).
-      unfold unit_call, claim_indexed. rewrite Hroot in Hcur.
+      unfold unit_call, claim_indexed.
       destruct (root s) as [r|] eqn:Er; cbn [of_option bind].
       + destruct (is_claimed s i) eqn:Ec.
-        * cbn [fst snd unit_expect]. rewrite obs_eqb_refl. reflexivity.
+        * cbn [fst snd unit_expect out_eqb]. reflexivity.
         * rewrite <- (idx_outcome _ (Lh h i a m) p _ Hcur (N2Z.is_nonneg i)).
           destruct (verify_with_index dg_eqb (Hh h) p r (Lh h i a m) (Z.of_N i)) as [[|]|];
-            cbn [bind fst snd unit_expect out_eqb andb].
-          -- apply obs_eqb_eq. rewrite observe_set_claimed, Er. reflexivity.
-          -- apply obs_eqb_refl.
-          -- apply obs_eqb_refl.
-      + cbn [fst snd unit_expect out_eqb andb]. apply obs_eqb_refl.
+            cbn [bind fst snd unit_expect out_eqb].
+          -- f_equal. rewrite observe_set_claimed, Er. reflexivity.
+          -- reflexivity.
+          -- reflexivity.
+      + cbn [fst snd unit_expect out_eqb]. reflexivity.
     - (* Airdrop *)
       rewrite Hkeys_cl, Hkeys_bal in Hwc. apply andb_prop in Hwc. destruct Hwc as [Hwc Hself_in].
       apply andb_prop in Hwc. destruct Hwc as [Hwc Ha]. apply andb_prop in Hwc. destruct Hwc as [Hi Hcur].
@@ -322,44 +338,50 @@ Section Mon.
       unfold po at 1. rewrite (bal_of_observe _ _ _ _ Hself_in). rewrite <- Hself.
       pose proof (airdrop_pays dg dg_eqb (Hh h) dg_gtb (Lh h) s i a m p) as Hpay.
       cbn [step] in Hpay.
-      unfold unit_call, airdrop_claim, claim_sorted in *. rewrite Hroot in Hcur.
+      unfold unit_call, airdrop_claim, claim_sorted in *.
       destruct (root s) as [r|] eqn:Er; cbn [of_option bind] in *.
       + destruct (is_claimed s i) eqn:Ec.
-        * cbn [bind fst snd unit_expect]. rewrite obs_eqb_refl. reflexivity.
+        * cbn [bind fst snd unit_expect out_eqb]. reflexivity.
         * rewrite (verify_is_honest_s _ _ _ Hcur) in *.
           destruct (honest_s (squads h) r (Lh h i a m) p); cbn [bind andb] in *.
           -- unfold transfer, guard in *. cbn [self set_claimed] in *.
              change (balance (set_claimed s i) (self s)) with (balance s (self s)) in *.
-             destruct (0 <=? m); cbn [bind andb] in *; [|cbn [fst snd unit_expect out_eqb andb]; apply obs_eqb_refl].
-             destruct (m <=? balance s (self s)); cbn [bind andb] in *; [|cbn [fst snd unit_expect out_eqb andb]; apply obs_eqb_refl].
-             cbn [fst snd unit_expect out_eqb andb].
+             destruct (0 <=? m); cbn [bind andb] in *; [|cbn [fst snd unit_expect out_eqb]; reflexivity].
+             destruct (m <=? balance s (self s)); cbn [bind andb] in *; [|cbn [fst snd unit_expect out_eqb]; reflexivity].
+             cbn [fst snd unit_expect out_eqb].
              destruct (Hpay _ eq_refl) as (_ & _ & _ & Hbal).
-             apply obs_eqb_eq. unfold observe at 1. unfold po, observe, o_cl, o_bal, o_root. cbn [fst snd root set_bal set_claimed].
+             f_equal. symmetry. unfold observe at 1. unfold po, observe, o_cl, o_bal, o_root. cbn [fst snd root set_bal set_claimed].
              rewrite Er. f_equal; [f_equal|].
              ++ rewrite upd_claimed_observe. apply map_ext. intros j. reflexivity.
              ++ unfold upd_bals. rewrite map_map. apply map_ext. intros x. cbn [fst snd]. f_equal. apply Hbal.
-          -- cbn [fst snd unit_expect out_eqb andb]. apply obs_eqb_refl.
-      + cbn [bind fst snd unit_expect out_eqb andb]. apply obs_eqb_refl.
-    - (* Advance *) cbn [out_eqb andb]. apply obs_eqb_refl.
+          -- cbn [fst snd unit_expect out_eqb]. reflexivity.
+      + cbn [bind fst snd unit_expect out_eqb]. reflexivity.
+    - (* Advance *) cbn [out_eqb]. reflexivity.
   Qed.
 
+  Lemma step_root_obs univ addrs (s : state dg) : o_root (observe univ addrs s) = root s.
+  Proof. reflexivity. Qed.
+
   (* ---------- the whole run ---------- *)
-  Lemma model_run_accepted : forall cs univ addrs (s : state dg) k,
+  Lemma model_run_accepted : forall cs univ addrs (s0 s : state dg) k,
     self s = h_self h ->
-    wf_run h (squads h) (iquads h) s (observe univ addrs s) cs = true ->
-    diff_from h (squads h) (iquads h) s (observe univ addrs s) (model_items h s (observe univ addrs s) cs) k = 0%N /\
+    wf_run h (squads h) (iquads h) (observe univ addrs s0) s cs = true ->
+    diff_from h (squads h) (iquads h) (observe univ addrs s0) s (model_items h s (observe univ addrs s) cs) k = 0%N /\
     mon_from h (squads h) (iquads h) (observe univ addrs s) (model_items h s (observe univ addrs s) cs) k = 0%N.
   Proof.
-    induction cs as [|c cs IH]; intros univ addrs s k Hself Hw; [split; reflexivity|].
+    induction cs as [|c cs IH]; intros univ addrs s0 s k Hself Hw; [split; reflexivity|].
     cbn [wf_run model_items] in *.
-    pose proof (mon_step_model univ addrs s c Hself) as Hm.
+    assert (Hu : forall x, wf_call h (squads h) (iquads h) (observe univ addrs s0) x c
+                         = wf_call h (squads h) (iquads h) (observe univ addrs s) x c).
+    { intros x. unfold wf_call, observe, o_cl, o_bal. cbn [fst snd]. rewrite !map_fst_pair. reflexivity. }
+    pose proof (mon_expect_model univ addrs s c Hself) as Hm.
     pose proof (step_self s c) as Hs'.
     destruct (mstep h s c) as [s' out] eqn:Es. cbn [fst snd] in *.
     apply andb_prop in Hw. destruct Hw as [Hw Hrest]. apply andb_prop in Hw. destruct Hw as [Hwc Hhits].
     rewrite observe_like_observe in *.
-    cbn [diff_from mon_from snd]. rewrite Es, Hwc, Hhits, out_eqb_refl.
+    cbn [diff_from mon_from]. rewrite Es, Hwc, Hhits, out_eqb_refl.
     rewrite observe_like_observe, obs_eqb_refl. cbn [andb].
-    rewrite (Hm Hwc).
+    rewrite Hu in Hwc. rewrite (Hm Hwc), obs_sub_observe.
     apply IH; [congruence|exact Hrest].
   Qed.
 End Mon.
@@ -377,5 +399,5 @@ Proof.
   clearbody s0.
   remember (map fst (o_cl o0)) as univ. remember (map fst (o_bal o0)) as addrs.
   clear Hequniv Heqaddrs Ho. subst o0.
-  destruct (model_run_accepted h Hh cs univ addrs s0 0%N Hself Hrun) as [-> ->]. reflexivity.
+  destruct (model_run_accepted h Hh cs univ addrs s0 s0 0%N Hself Hrun) as [-> ->]. reflexivity.
 Qed.
